@@ -111,6 +111,12 @@ func parentMain(prop, tier string, extraArgs []string) int {
 		usage()
 	}
 	start := time.Now()
+	// stale replay files of earlier runs of this property would only mislead
+	if old, _ := filepath.Glob(filepath.Join(ev.VerifDir, "replays", prop+"[_.]*")); len(old) > 0 {
+		for _, f := range old {
+			os.Remove(f)
+		}
+	}
 	dir := ev.WorkDir(prop)
 	defer func() {
 		if os.Getenv("VERIF_KEEP") == "" {
